@@ -383,5 +383,14 @@ pub open spec fn tags_text(m: Xmap, n: int, fl: Option<usize>) -> Seq<char>
 //@use coll.fns "impl fmt::Debug for Cell"::fmt#map
 //@use coll.fns "impl fmt::Debug for Cell"::fmt#int
 
+// small State getters a changed body may start to use (assumed renderings of verified contracts; unit state proves them)
+impl State {
+//@use state.fns State::ip assumed
+//@use state.fns State::is_recording assumed
+//@use state.fns State::is_running assumed
+//@use state.fns State::get_var assumed
+//@use state.fns State::code_origin assumed
+}
+
 } // verus!
 fn main() {}
